@@ -886,6 +886,15 @@ class Registry:
                 a2 = [self.ev(a, env, factory.module, factory) for a in st.value.args]
                 k2 = {k.arg: self.ev(k.value, env, factory.module, factory) for k in st.value.keywords}
                 env[st.targets[0].id] = ('factory-app', f2, pre2, a2, k2)
+            elif isinstance(st, ast.Assign) and len(st.targets) == 1 and isinstance(st.targets[0], ast.Name):
+                # a local of the factory (a base class chosen from its arguments, a name built once): visible to the inner function
+                v = st.value
+                if isinstance(v, ast.IfExp):
+                    t = self.truth(v.test, env, factory.module, factory)
+                    if t is None:
+                        raise AnalysisError(f'{factory.fq}: condition of `{ast.unparse(st)[:60]}` not decided by the factory arguments')
+                    v = v.body if t else v.orelse
+                env[st.targets[0].id] = self.ev(v, env, factory.module, factory)
             else:
                 raise AnalysisError(f'{factory.fq}: unsupported statement in decorator factory: {ast.unparse(st)[:60]}')
         if inner is None:
